@@ -163,7 +163,7 @@ let facade_plan (plan : string) : string =
                   if String.length a > 0 && a.[0] = 'N' then begin
                     match split_on ':' (String.sub a 1 (String.length a - 1)) with
                     | [txt; zone] ->
-                      let z = if zone = "-" then None else Some (unhex zone) in
+                      let z = if zone = "-" || zone = "+" then None else Some (unhex zone) in
                       (match raw_name_from_str (unhex txt) z with
                        | Ok raw -> "M" ^ hex raw
                        | _ -> "M" ^ "c00c")   (* a name conversion error surfaces as M=ERR *)
@@ -320,7 +320,7 @@ let rec run_op (ctx : ctx) (op : string) : string =
   end else
   let f = Array.of_list (split_on ',' op) in
   match f.(0) with
-  | "H" -> run_schedule f.(2)
+  | "H" | "HM" -> run_schedule f.(2)
   | "HS" -> run_sequential (int_of_string f.(1))
   | "PR" ->
     let r1 = run_op ctx ("P," ^ f.(1)) in
